@@ -167,7 +167,9 @@ void c06e_keep_symbols(void) { void (*volatile k)(void); k = (void (*)(void))mmd
 	{ IN_ARR(char, body, SINK_CAP); for (int i = 0; i < SINK_CAP; i++) { g_body[i] = body[i]; } }
 #define MK_ENGINE \
 	mmd_engine * e = ALLOC(sizeof(mmd_engine)); \
-	{ IN(unsigned long, ext); e->extensions = ext; IN(DString *, ds); e->dstr = ds; }
+	{ IN(unsigned long, ext); e->extensions = ext; \
+	  /* the engine's text: a real object that is NOT in the assigns clause -- the entry points convert it, they do not edit it (C05: source unchanged) */ \
+	  DString * ds = ALLOC(sizeof(DString)); ds->str = ALLOC(4); ds->str[3] = 0; ds->currentStringLength = 3; ds->currentStringBufferSize = 4; e->dstr = ds; }
 
 void h_engine_convert(void) {
 	GHOST_INIT MK_ENGINE
